@@ -760,6 +760,119 @@ def run_case(case):
 
 
 # --------------------------------------------------------------------------------------------
+# histories: several decorated calls, one after the other, on ONE transport (+ channel) object
+# --------------------------------------------------------------------------------------------
+def run_history(case):
+    """case = {cls, lock, prev_handler, prev_timer, calls: [{thread: main|worker, level: tleaf|cleaf, fname, T, no_term,
+    windows, step}]}.  ONE scripted transport object (its read() decorated) and ONE channel object over it are built and
+    every call of the history is made on them: `transport.read()` (limit: timeout_transport) or a decorated channel
+    method whose body is one raw read (limit: timeout_ops), from the main thread or from a fresh non-main thread.  Only
+    the harness's script device behind the transport is exchanged between the calls (one step per call); a connection
+    that a timeout closed is opened again before the next call.  Per call the same observation as run_case()."""
+    import scrapli.decorators as dec
+    from scrapli.channel.base_channel import BaseChannelArgs
+    from scrapli.settings import Settings
+
+    fired = []
+
+    def user_handler(signum, frame):
+        fired.append(time.monotonic())
+
+    prev = {"user": user_handler, "default": signal.SIG_DFL, "ign": signal.SIG_IGN}[case.get("prev_handler", "default")]
+    saved_nt, saved_win = Settings.NO_TERMINATE_ON_TIMEOUT, dec._IS_WINDOWS
+    out_calls = []
+    ctls, timers, stray = [], [], []
+    try:
+        signal.signal(signal.SIGALRM, prev)
+        threads_before = set(threading.enumerate())
+        tr = sync_transport_class(case["cls"], True)(_bta({"t_tr": 0.0}), _Ctl([]))
+        ch = sync_channel_class()(tr, BaseChannelArgs(comms_prompt_pattern=PROMPT_PATTERN, timeout_ops=0.0,
+                                                      channel_lock=bool(case.get("lock"))))
+        pt = case.get("prev_timer")
+        if pt:
+            signal.setitimer(signal.ITIMER_REAL, pt[0], pt[1])
+        for call in case["calls"]:
+            ctl = _Ctl([tuple(call["step"])])
+            ctls.append(ctl)
+            reopened = False
+            if not tr.isalive():
+                tr.open()
+                reopened = True
+            tr.ctl = ctl
+            Settings.NO_TERMINATE_ON_TIMEOUT = bool(call.get("no_term"))
+            dec._IS_WINDOWS = bool(call.get("windows"))
+            T = call["T"]
+            if call["level"] == "tleaf":
+                tr._base_transport_args.timeout_transport = T
+                fn = tr.read
+            else:
+                ch._base_channel_args.timeout_ops = T
+                fn = getattr(ch, "leaf_" + call["fname"])
+            n_fired = len(fired)
+            timer_before = signal.getitimer(signal.ITIMER_REAL)
+            box = {}
+
+            def body(ctl=ctl, fn=fn, box=box):
+                ctl.caller_ident = threading.get_ident()
+                try:
+                    box["out"] = _canon_ret(fn())
+                except BaseException as e:  # noqa
+                    box["out"] = _canon_exc(e)
+                box["t1"] = time.monotonic()
+
+            wd = threading.Timer(call.get("watchdog") or (T + 1.6), lambda ctl=ctl: ctl.release(watchdog=True))
+            wd.daemon = True
+            timers.append(wd)
+            wd.start()
+            t0 = time.monotonic()
+            if call["thread"] == "main":
+                body()
+            else:
+                th = threading.Thread(target=body, daemon=True)
+                th.start()
+                th.join()
+            wd.cancel()
+            wd.join()
+            after_timer = signal.getitimer(signal.ITIMER_REAL)
+            after_handler = signal.getsignal(signal.SIGALRM)
+            extra = [x for x in threading.enumerate() if x not in threads_before and x.is_alive()]
+            out_calls.append({
+                "out": box.get("out"),
+                "elapsed": round(box.get("t1", time.monotonic()) - t0, 3),
+                "hang": bool(ctl.by_watchdog),
+                "alive": bool(tr.isalive()),
+                "handler_restored": after_handler is prev or after_handler == prev,
+                "timer_before": [round(timer_before[0], 3), round(timer_before[1], 3)],
+                "timer_after": [round(after_timer[0], 3), round(after_timer[1], 3)],
+                "fired": len(fired) - n_fired,
+                "leftover_threads": len(extra),
+                "lock_held": bool(ch.channel_lock is not None and ch.channel_lock.locked()),
+                "reads": ctl.reads,
+                "mech_seen": ctl.mech_seen,
+                "reopened": reopened,
+            })
+            # whatever this call left behind is ended before the next one starts (it has been counted)
+            ctl.released.set()
+            ctl.wake.set()
+            for x in extra:
+                x.join(3)
+            stray += [x for x in extra if x.is_alive()]
+    finally:
+        signal.setitimer(signal.ITIMER_REAL, 0)
+        signal.signal(signal.SIGALRM, signal.SIG_DFL)
+        Settings.NO_TERMINATE_ON_TIMEOUT = saved_nt
+        dec._IS_WINDOWS = saved_win
+        for c in ctls:
+            c.released.set()
+            c.wake.set()
+        for w in timers:
+            w.cancel()
+        for x in stray:
+            x.join(3)
+    return {"calls": out_calls}
+
+
+# --------------------------------------------------------------------------------------------
 # real runtime: the real Telnet transport over a loopback socket whose peer stays silent, the real
 # system transport over a pty whose child stays silent
 # --------------------------------------------------------------------------------------------
